@@ -1,5 +1,708 @@
+// Part B of the C06 harness: the real checks of the TXT and Boot Guard suites
+// under hardware faults.  This part is an enumeration on the real code judged
+// by an oracle, not a theorem; the runs that finish are additionally replayed
+// through the runner model (real dependency graph, the outcomes the real
+// checks produced as oracle).
 package main
 
-import "verifharness/gal"
+import (
+	"errors"
+	"fmt"
+	"runtime/debug"
+	"sort"
+	"strings"
+	"time"
+	_ "unsafe"
 
-func partB(c *gal.Ctx) {}
+	"github.com/9elements/converged-security-suite/v2/pkg/test"
+	"github.com/9elements/converged-security-suite/v2/pkg/tools"
+	"github.com/9elements/go-linux-lowlevel-hw/pkg/hwapi"
+	"github.com/digitalocean/go-smbios/smbios"
+	"github.com/google/go-tpm/legacy/tpm2"
+	"verifharness/gal"
+)
+
+const (
+	findingFITPanic = "C06-D18-getFITDataSize-panic"
+	findingMSRPanic = "C06-ReadMSR-failure-panics"
+)
+
+// The ACPI helpers of go-linux-lowlevel-hw cache RSDP/RSDT/XSDT in unexported
+// package variables; they are cleared between runs so that every run starts
+// from a cold platform.
+//
+//go:linkname acpiBackupRSDP github.com/9elements/go-linux-lowlevel-hw/pkg/hwapi.backupRSDP
+var acpiBackupRSDP hwapi.ACPIRsdp
+
+//go:linkname acpiBackupRawRSDP github.com/9elements/go-linux-lowlevel-hw/pkg/hwapi.backupRawRSDP
+var acpiBackupRawRSDP []byte
+
+//go:linkname acpiBackupRSDT github.com/9elements/go-linux-lowlevel-hw/pkg/hwapi.backupRSDT
+var acpiBackupRSDT []byte
+
+//go:linkname acpiBackupRSDTList github.com/9elements/go-linux-lowlevel-hw/pkg/hwapi.backupRSDTList
+var acpiBackupRSDTList []uint32
+
+//go:linkname acpiBackupXSDT github.com/9elements/go-linux-lowlevel-hw/pkg/hwapi.backupXSDT
+var acpiBackupXSDT []byte
+
+//go:linkname acpiBackupXSDTList github.com/9elements/go-linux-lowlevel-hw/pkg/hwapi.backupXSDTList
+var acpiBackupXSDTList []uint64
+
+func resetACPICaches() {
+	acpiBackupRSDP = hwapi.ACPIRsdp{}
+	acpiBackupRawRSDP = nil
+	acpiBackupRSDT, acpiBackupRSDTList = nil, nil
+	acpiBackupXSDT, acpiBackupXSDTList = nil, nil
+}
+
+// ---- fault injector ----
+
+const (
+	faultNone  = 0
+	faultFromK = 1 // the k-th fallible call and all later ones fail
+	faultOnlyK = 2 // only the k-th fallible call fails
+)
+
+var errInjected = errors.New("injected hardware fault")
+
+// faultHW wraps a platform.  Fallible accesses (everything that can report an
+// error, plus ReadMSR whose failure mode is an empty result, as in
+// hwapi.HwAPI.ReadMSR) are counted and fail according to the pattern; CPUID
+// style accessors cannot fail and are passed through.
+type faultHW struct {
+	base  hwapi.LowLevelHardwareInterfaces
+	mode  int
+	k     int
+	n     int
+	calls []string
+}
+
+func (f *faultHW) fail(name string) bool {
+	f.n++
+	if len(f.calls) < 4096 {
+		f.calls = append(f.calls, name)
+	}
+	switch f.mode {
+	case faultFromK:
+		return f.n >= f.k
+	case faultOnlyK:
+		return f.n == f.k
+	}
+	return false
+}
+
+func (f *faultHW) VersionString() string      { return f.base.VersionString() }
+func (f *faultHW) HasSMX() bool               { return f.base.HasSMX() }
+func (f *faultHW) HasVMX() bool               { return f.base.HasVMX() }
+func (f *faultHW) HasMTRR() bool              { return f.base.HasMTRR() }
+func (f *faultHW) ProcessorBrandName() string { return f.base.ProcessorBrandName() }
+func (f *faultHW) CPUSignature() uint32       { return f.base.CPUSignature() }
+func (f *faultHW) CPUSignatureFull() (uint32, uint32, uint32, uint32) {
+	return f.base.CPUSignatureFull()
+}
+func (f *faultHW) CPULogCount() uint32 { return f.base.CPULogCount() }
+
+func (f *faultHW) IterateOverE820Ranges(target string, cb func(start uint64, end uint64) bool) (bool, error) {
+	if f.fail("IterateOverE820Ranges") {
+		return false, errInjected
+	}
+	return f.base.IterateOverE820Ranges(target, cb)
+}
+func (f *faultHW) LookupIOAddress(addr uint64, regs hwapi.VTdRegisters) ([]uint64, error) {
+	if f.fail("LookupIOAddress") {
+		return []uint64{}, errInjected
+	}
+	return f.base.LookupIOAddress(addr, regs)
+}
+func (f *faultHW) ReadMSR(msr int64) []uint64 {
+	if f.fail("ReadMSR") {
+		return nil
+	}
+	return f.base.ReadMSR(msr)
+}
+func (f *faultHW) PCIEnumerateVisibleDevices(cb func(d hwapi.PCIDevice) (abort bool)) error {
+	if f.fail("PCIEnumerateVisibleDevices") {
+		return errInjected
+	}
+	return f.base.PCIEnumerateVisibleDevices(cb)
+}
+func (f *faultHW) PCIReadConfigSpace(d hwapi.PCIDevice, off int, l int) ([]byte, error) {
+	if f.fail("PCIReadConfigSpace") {
+		return nil, errInjected
+	}
+	return f.base.PCIReadConfigSpace(d, off, l)
+}
+func (f *faultHW) PCIWriteConfigSpace(d hwapi.PCIDevice, off int, val interface{}) error {
+	if f.fail("PCIWriteConfigSpace") {
+		return errInjected
+	}
+	return f.base.PCIWriteConfigSpace(d, off, val)
+}
+func (f *faultHW) ReadPhys(addr int64, data hwapi.UintN) error {
+	if f.fail("ReadPhys") {
+		return errInjected
+	}
+	return f.base.ReadPhys(addr, data)
+}
+func (f *faultHW) ReadPhysBuf(addr int64, buf []byte) error {
+	if f.fail("ReadPhysBuf") {
+		return errInjected
+	}
+	return f.base.ReadPhysBuf(addr, buf)
+}
+func (f *faultHW) WritePhys(addr int64, data hwapi.UintN) error {
+	if f.fail("WritePhys") {
+		return errInjected
+	}
+	return f.base.WritePhys(addr, data)
+}
+func (f *faultHW) NewTPM() (*hwapi.TPM, error) {
+	if f.fail("NewTPM") {
+		return nil, errInjected
+	}
+	return f.base.NewTPM()
+}
+func (f *faultHW) NVLocked(t *hwapi.TPM) (bool, error) {
+	if f.fail("NVLocked") {
+		return false, errInjected
+	}
+	return f.base.NVLocked(t)
+}
+func (f *faultHW) ReadNVPublic(t *hwapi.TPM, index uint32) ([]byte, error) {
+	if f.fail("ReadNVPublic") {
+		return nil, errInjected
+	}
+	return f.base.ReadNVPublic(t, index)
+}
+func (f *faultHW) NVReadValue(t *hwapi.TPM, index uint32, password string, size, offhandle uint32) ([]byte, error) {
+	if f.fail("NVReadValue") {
+		return nil, errInjected
+	}
+	return f.base.NVReadValue(t, index, password, size, offhandle)
+}
+func (f *faultHW) ReadPCR(t *hwapi.TPM, pcr uint32) ([]byte, error) {
+	if f.fail("ReadPCR") {
+		return nil, errInjected
+	}
+	return f.base.ReadPCR(t, pcr)
+}
+func (f *faultHW) GetACPITable(n string) ([]byte, error) {
+	if f.fail("GetACPITable") {
+		return nil, errInjected
+	}
+	return f.base.GetACPITable(n)
+}
+func (f *faultHW) IterateOverSMBIOSTables(n uint8, cb func(s *smbios.Structure) bool) (bool, error) {
+	if f.fail("IterateOverSMBIOSTables") {
+		return false, errInjected
+	}
+	return f.base.IterateOverSMBIOSTables(n, cb)
+}
+
+// ---- the real suites, instrumented ----
+
+type suiteEnv struct {
+	all    []*test.Test
+	index  map[*test.Test]int
+	plat   *platform
+	preset *test.PreSet
+	trace  []event // evaluations of the current run
+}
+
+func newSuiteEnv() *suiteEnv {
+	e := &suiteEnv{all: test.AllTestsForVerif(), index: map[*test.Test]int{}, plat: newPlatform()}
+	for i, t := range e.all {
+		e.index[t] = i
+	}
+	for i, t := range e.all {
+		i := i
+		test.WrapCheckForVerif(t, func(inner test.CheckFuncForVerif) test.CheckFuncForVerif {
+			return func(hw hwapi.LowLevelHardwareInterfaces, p *test.PreSet) (bool, error, error) {
+				asdep := runDepth() > 1
+				rc, te, ie := inner(hw, p)
+				e.trace = append(e.trace, event{i, asdep, [3]bool{rc, te != nil, ie != nil}})
+				return rc, te, ie
+			}
+		})
+	}
+	e.preset = &test.PreSet{TPM: hwapi.TPMVersion20, TXTMode: tools.AutoPromotion, LCPHash: tpm2.AlgSHA256,
+		Firmware: mustRead("testdata/firmware/fake_intel_firmware.fd")}
+	return e
+}
+
+func (e *suiteEnv) reset() {
+	for _, t := range e.all {
+		test.ResetTestForVerif(t)
+	}
+	test.ResetStateForVerif()
+	resetACPICaches()
+	e.trace = nil
+}
+
+type faultRun struct {
+	panicked bool
+	pmsg     string
+	pstack   string
+	hung     bool
+	calls    []string
+	n        int
+	rets     []bool
+	sOK      bool
+	sMsg     string
+	sErr     bool
+	trace    []event
+	final    []test.Result
+	texts    []string
+}
+
+// run executes the listed tests (Test.Run one by one, or RunTestsSilent) from a
+// cold state under the given fault pattern.
+func (e *suiteEnv) run(list []*test.Test, silent bool, mode, k int) faultRun {
+	e.reset()
+	hw := &faultHW{base: e.plat, mode: mode, k: k}
+	var r faultRun
+	done := make(chan struct{})
+	go func() {
+		defer close(done)
+		defer func() {
+			if x := recover(); x != nil {
+				r.panicked = true
+				r.pmsg = fmt.Sprint(x)
+				r.pstack = string(debug.Stack())
+			}
+		}()
+		if silent {
+			ok, m, err := test.RunTestsSilent(hw, e.preset, list)
+			r.sOK, r.sMsg, r.sErr = ok, m, err != nil
+		} else {
+			for _, t := range list {
+				r.rets = append(r.rets, t.Run(hw, e.preset))
+			}
+		}
+	}()
+	select {
+	case <-done:
+	case <-time.After(20 * time.Second):
+		r.hung = true
+		return r
+	}
+	r.calls, r.n = hw.calls, hw.n
+	r.trace = e.trace
+	r.final = make([]test.Result, len(e.all))
+	r.texts = make([]string, len(e.all))
+	for i, t := range e.all {
+		r.final[i] = t.Result
+		r.texts[i] = t.ErrorText
+	}
+	return r
+}
+
+func panicSite(stack string) string {
+	for _, l := range strings.Split(stack, "\n") {
+		l = strings.TrimSpace(l)
+		if strings.Contains(l, "/pkg/test.") && !strings.Contains(l, "(*Test).Run") && !strings.Contains(l, "RunTestsSilent") {
+			if i := strings.Index(l, "("); i > 0 {
+				return l[:i]
+			}
+			return l
+		}
+	}
+	return "?"
+}
+
+// classifyPanic maps a panic to a known finding, or "" when it is none of them.
+func classifyPanic(r faultRun) string {
+	switch {
+	case strings.Contains(r.pstack, "pkg/test.getFITDataSize"):
+		return findingFITPanic
+	case strings.Contains(r.pstack, "go-linux-lowlevel-hw") && strings.Contains(r.pstack, "msr_intel.go") && strings.Contains(r.pmsg, "index out of range [0] with length 0"):
+		return findingMSRPanic
+	}
+	return ""
+}
+
+// graphCase turns a finished run into a case for the model: the real
+// dependency graph with the observed check outcomes as oracle.
+func (e *suiteEnv) graphCase(list []*test.Test, silent bool, r faultRun) (gcase, runObs) {
+	// only the tests reachable from the listed ones, renumbered in order of discovery
+	local := map[int]int{}
+	var members []int
+	var visit func(t *test.Test)
+	visit = func(t *test.Test) {
+		gi := e.index[t]
+		if _, ok := local[gi]; ok {
+			return
+		}
+		local[gi] = len(members)
+		members = append(members, gi)
+		for _, d := range test.DepsForVerif(t) {
+			visit(d)
+		}
+	}
+	for _, t := range list {
+		visit(t)
+	}
+	g := gcase{Silent: silent}
+	outs := make([][][3]bool, len(members))
+	o := runObs{rets: r.rets, sOK: r.sOK, sErr: r.sErr}
+	for _, ev := range r.trace {
+		li := local[ev.id]
+		outs[li] = append(outs[li], ev.out)
+		o.trace = append(o.trace, event{li, ev.asdep, ev.out})
+	}
+	for li, gi := range members {
+		t := e.all[gi]
+		d := tdesc{Required: t.Required, Status: int(t.Status), Deps: []int{}, Outs: outs[li]}
+		for _, dep := range test.DepsForVerif(t) {
+			d.Deps = append(d.Deps, local[e.index[dep]])
+		}
+		if len(d.Outs) == 0 {
+			d.Outs = [][3]bool{{false, false, false}}
+		}
+		g.Tests = append(g.Tests, d)
+		o.final = append(o.final, r.final[gi])
+		b := -1
+		for _, dep := range test.DepsForVerif(t) {
+			if r.texts[gi] == dep.Name+" failed" {
+				b = local[e.index[dep]]
+			}
+		}
+		o.blames = append(o.blames, b)
+	}
+	for _, t := range list {
+		g.Order = append(g.Order, local[e.index[t]])
+	}
+	if !r.sOK && !r.sErr && silent {
+		// "Test <name> returned <RESULT>: ..." -> the printer wants "t<idx>"
+		for li, gi := range members {
+			name := e.all[gi].Name
+			if strings.HasPrefix(r.sMsg, "Test "+name+" returned ") {
+				o.sMsg = fmt.Sprintf("Test t%d returned %s", li, strings.TrimPrefix(r.sMsg, "Test "+name+" returned "))
+			}
+		}
+	}
+	return g, o
+}
+
+func (e *suiteEnv) addGraphCase(c *gal.Ctx, kind string, list []*test.Test, silent bool, r faultRun, descr interface{}) int {
+	g, o := e.graphCase(list, silent, r)
+	a, b, ini := galTests(g.Tests)
+	var obs string
+	if silent {
+		obs = "(ObsSilent " + galSilent(o) + ")"
+	} else {
+		obs = "(ObsList " + gal.BoolList(o.rets) + ")"
+	}
+	fin := make([]string, len(o.final))
+	bl := make([]string, len(o.final))
+	for i := range o.final {
+		fin[i] = galResult[o.final[i]]
+		if o.blames[i] < 0 {
+			bl[i] = "None"
+		} else {
+			bl[i] = fmt.Sprintf("(Some %d%%nat)", o.blames[i])
+		}
+	}
+	lit := fmt.Sprintf("CRun %s %s %s %s %s %s %s %s", a, b, ini, natList(g.Order), obs, gal.List(fin), gal.List(bl), galTrace(o.trace))
+	return c.Add(kind, lit, descr, len(o.trace) >= 2)
+}
+
+// runnerOracle applies the runner clauses of the property to a finished run of
+// ONE test on the real suite graph.
+func (e *suiteEnv) runnerOracle(t *test.Test, r faultRun) string {
+	ti := e.index[t]
+	evaluatedOK, evaluated := false, false
+	seen := map[int]int{}
+	for _, ev := range r.trace {
+		seen[ev.id]++
+		if ev.id == ti {
+			evaluated = true
+			if ev.out == [3]bool{true, false, false} {
+				evaluatedOK = true
+			}
+		}
+	}
+	for id, k := range seen {
+		if k > 1 {
+			return fmt.Sprintf("check of %q evaluated %d times inside one Run", e.all[id].Name, k)
+		}
+	}
+	depsPass, blocked := true, false
+	for _, d := range test.DepsForVerif(t) {
+		if implemented(d) && d.Result != test.ResultPass {
+			depsPass, blocked = false, true
+		}
+	}
+	if (t.Result == test.ResultPass) != (evaluatedOK && depsPass) {
+		return fmt.Sprintf("Result=%v but check evaluated-with-success=%v, implemented dependencies passed=%v", t.Result, evaluatedOK, depsPass)
+	}
+	if blocked && (t.Result != test.ResultDependencyFailed || evaluated) {
+		return fmt.Sprintf("an implemented dependency is not PASS but Result=%v, check evaluated=%v", t.Result, evaluated)
+	}
+	return ""
+}
+
+type faultDescr struct {
+	Test    string `json:"test"`
+	Pattern string `json:"pattern"`
+	K       int    `json:"k"`
+	N       int    `json:"healthy_calls"`
+	Call    string `json:"failing_call,omitempty"`
+}
+
+func patName(mode int) string {
+	switch mode {
+	case faultFromK:
+		return "k-th call and all later fail"
+	case faultOnlyK:
+		return "only k-th call fails"
+	}
+	return "healthy"
+}
+
+func partB(c *gal.Ctx) {
+	e := newSuiteEnv()
+	stats := map[string]int{}
+	healthy := map[string]string{}
+	passPartial := map[string]int{}
+	var panicSites []string
+	maxK := c.Scale(200, 1<<30) // quick tier: every k up to 200 (more than any check needs today), then a spread; thorough: every k
+	reportKnown := func(idx int, id, what, site string, d interface{}) { reportKnownFailure(c, idx, id, what, site, d) }
+	judge := func(t *test.Test, mode, k, n int, r faultRun, withCase bool) {
+		d := faultDescr{Test: t.Name, Pattern: patName(mode), K: k, N: n}
+		if k >= 1 && k <= len(r.calls) {
+			d.Call = r.calls[k-1]
+		}
+		site := "pkg/test check " + t.Name
+		switch {
+		case r.hung:
+			stats["hang"]++
+			c.OracleFail(-1, "check did not terminate within 20 s under "+d.Pattern, site, d)
+			return
+		case r.panicked:
+			stats["panic"]++
+			ps := panicSite(r.pstack)
+			panicSites = append(panicSites, ps)
+			what := fmt.Sprintf("%q panicked (%s) in %s under pattern %q k=%d", t.Name, r.pmsg, ps, d.Pattern, k)
+			if id := classifyPanic(r); id != "" {
+				reportKnown(-1, id, what, ps, d)
+			} else {
+				c.OracleFail(-1, what, ps, d)
+			}
+			return
+		}
+		idx := -1
+		if withCase {
+			idx = e.addGraphCase(c, "suite_graph_fault", []*test.Test{t}, false, r, d)
+		}
+		stats["runs_finished"]++
+		stats["result_"+t.Result.String()]++
+		if mode == faultFromK && k == 1 && n >= 1 && t.Result == test.ResultPass {
+			c.OracleFail(idx, fmt.Sprintf("%q is reported PASS although every hardware access failed", t.Name), site, d)
+			return
+		}
+		if mode != faultNone && t.Result == test.ResultPass {
+			passPartial[t.Name]++
+		}
+		if m := e.runnerOracle(t, r); m != "" {
+			c.OracleFail(idx, "on the real suite graph, "+t.Name+": "+m, siteRun, d)
+			return
+		}
+		c.OracleOK()
+	}
+	for _, t := range e.all {
+		h := e.run([]*test.Test{t}, false, faultNone, 0)
+		n := h.n
+		if h.panicked || h.hung {
+			healthy[t.Name] = "PANIC/HANG"
+		} else {
+			healthy[t.Name] = t.Result.String()
+			if t.Result != test.ResultPass {
+				healthy[t.Name] += ": " + t.ErrorText
+			}
+		}
+		healthyCalls[t] = n
+		stats["tests"]++
+		stats["healthy_calls_total"] += n
+		judge(t, faultNone, 0, n, h, true)
+		ks := []int{}
+		for k := 1; k <= n; k++ {
+			if k <= maxK || k == n || (n > maxK && (k-maxK)%((n-maxK)/8+1) == 0) {
+				ks = append(ks, k)
+			}
+		}
+		for _, k := range ks {
+			for _, mode := range []int{faultFromK, faultOnlyK} {
+				r := e.run([]*test.Test{t}, false, mode, k)
+				stats["fault_runs"]++
+				// every 3rd finished faulted run also goes through the model
+				judge(t, mode, k, n, r, (k+mode)%3 == 0)
+			}
+		}
+	}
+	// ---- whole suites, healthy and under total failure ----
+	suites := []struct {
+		name string
+		list []*test.Test
+	}{
+		{"TestsTXTReady", test.TestsTXTReady}, {"TestsTXTLegacy", test.TestsTXTLegacy}, {"TestsTXTUEFI", test.TestsTXTUEFI},
+		{"TestsTXTTBoot", test.TestsTXTTBoot}, {"TestsBootGuard", test.TestsBootGuard[:]},
+		{"txt-suite getTests()", append(append(append(append(append([]*test.Test{}, test.TestsCPU[:]...), test.TestsTPM[:]...), test.TestsFIT[:]...), test.TestsMemory[:]...), test.TestsACPI[:]...)},
+	}
+	rerunReal := []string{}
+	for _, s := range suites {
+		for _, silent := range []bool{false, true} {
+			for _, mode := range []int{faultNone, faultFromK} {
+				r := e.run(s.list, silent, mode, 1)
+				d := map[string]interface{}{"suite": s.name, "silent": silent, "pattern": patName(mode), "k": 1}
+				stats["suite_runs"]++
+				if r.hung {
+					c.OracleFail(-1, "suite run did not terminate", s.name, d)
+					continue
+				}
+				if r.panicked {
+					ps := panicSite(r.pstack)
+					what := fmt.Sprintf("suite %s panicked (%s) in %s, pattern %q", s.name, r.pmsg, ps, patName(mode))
+					if id := classifyPanic(r); id != "" {
+						reportKnown(-1, id, what, ps, d)
+					} else {
+						c.OracleFail(-1, what, ps, d)
+					}
+					continue
+				}
+				idx := e.addGraphCase(c, "suite_graph_whole", s.list, silent, r, d)
+				bad := ""
+				total := map[int]int{}
+				for _, ev := range r.trace {
+					total[ev.id]++
+				}
+				twice := []string{}
+				for id, k := range total {
+					if k > 1 {
+						twice = append(twice, e.all[id].Name)
+					}
+				}
+				sort.Strings(twice)
+				if silent && r.sOK {
+					for _, t := range s.list {
+						if t.Required && implemented(t) && t.Result != test.ResultPass {
+							bad = fmt.Sprintf("RunTestsSilent reported success for %s but required implemented %q is %v", s.name, t.Name, t.Result)
+						}
+					}
+				}
+				if mode == faultFromK {
+					for _, t := range s.list {
+						if t.Result == test.ResultPass && countCalls(e, t) > 0 {
+							bad = fmt.Sprintf("%q is PASS in suite %s although every hardware access failed", t.Name, s.name)
+						}
+					}
+				}
+				switch {
+				case bad != "":
+					c.OracleFail(idx, bad, s.name, d)
+				case len(twice) > 0:
+					if mode == faultNone && !silent {
+						rerunReal = append(rerunReal, s.name+": "+strings.Join(twice, ", "))
+					}
+					reportKnown(idx, findingRerun, fmt.Sprintf("suite %s evaluates %d check(s) twice in one run: %s", s.name, len(twice), strings.Join(twice, ", ")), s.name, d)
+				default:
+					c.OracleOK()
+				}
+			}
+		}
+	}
+	// ---- probes of the known findings on fixed witnesses ----
+	probeFindings(c, e, rerunReal)
+
+	sort.Strings(panicSites)
+	c.Rep.Extra["partB_stats"] = stats
+	c.Rep.Extra["partB_healthy_results"] = healthy
+	c.Rep.Extra["partB_pass_under_partial_fault"] = passPartial
+	c.Rep.Extra["partB_panic_sites"] = uniq(panicSites)
+	c.Rep.Extra["partB_known_failures"] = knownSeen
+	c.Rep.Notes = append(c.Rep.Notes,
+		"Part B is an enumeration on the real checks (fault matrix), not a theorem; fallible accesses = every hwapi method that can return an error plus ReadMSR (failure = empty result); CPUID accessors are not faulted",
+		"Part B environment: GetACPITableSysFS and the IOMMU lookup of go-linux-lowlevel-hw read the host's /sys directly (not through the hardware interface); on this host they fail, which the checks treat as absence")
+}
+
+var healthyCalls = map[*test.Test]int{}
+
+var knownSeen = map[string]int{}
+
+// reportKnownFailure records an oracle failure of a known-finding class; the
+// closed input is kept for the first dozen per finding, later ones only point
+// to their case index.
+func reportKnownFailure(c *gal.Ctx, idx int, id, what, site string, d interface{}) {
+	knownSeen[id]++
+	if knownSeen[id] <= 12 {
+		c.OracleFailKnown(idx, id, what, site, d)
+	} else {
+		c.OracleFailKnown(idx, id, what, site, map[string]interface{}{"see_case": idx})
+	}
+}
+
+// countCalls: number of fallible hardware calls of the healthy run of one test (cached).
+func countCalls(e *suiteEnv, t *test.Test) int {
+	if v, ok := healthyCalls[t]; ok {
+		return v
+	}
+	r := e.run([]*test.Test{t}, false, faultNone, 0)
+	healthyCalls[t] = r.n
+	return r.n
+}
+
+func uniq(s []string) []string {
+	var out []string
+	for i, x := range s {
+		if i == 0 || x != s[i-1] {
+			out = append(out, x)
+		}
+	}
+	return out
+}
+
+func (e *suiteEnv) byName(name string) *test.Test {
+	for _, t := range e.all {
+		if t.Name == name {
+			return t
+		}
+	}
+	return nil
+}
+
+// probeFindings re-runs one fixed witness per known finding on the real code.
+func probeFindings(c *gal.Ctx, e *suiteEnv, rerunReal []string) {
+	// (1) the caller's loop runs a test again that was already run as a dependency
+	{
+		n := 0
+		b := test.NewTestForVerif("B", false, test.Implemented, test.ResultNotRun,
+			func(hwapi.LowLevelHardwareInterfaces, *test.PreSet) (bool, error, error) {
+				n++
+				return n == 1, nil, nil
+			}, nil)
+		a := test.NewTestForVerif("A", true, test.Implemented, test.ResultNotRun,
+			func(hwapi.LowLevelHardwareInterfaces, *test.PreSet) (bool, error, error) { return true, nil, nil }, []*test.Test{b})
+		ok, _, err := test.RunTestsSilent(e.plat, e.preset, []*test.Test{a, b})
+		rep := n == 2 && ok && err == nil && a.Result == test.ResultPass && b.Result == test.ResultFail
+		c.Probe(findingRerun, rep, fmt.Sprintf("A depends on B (not Required), RunTestsSilent([A,B]): B's check evaluated %d times; second verdict FAIL, A stays PASS, overall success=%v. Real suites, healthy platform, checks evaluated twice: %s",
+			n, ok, strings.Join(rerunReal, " | ")))
+	}
+	// (2) getFITDataSize panics
+	if t := e.byName("IBB and BIOS ACM below 4GiB"); t != nil {
+		h := e.run([]*test.Test{t}, false, faultNone, 0)
+		f := e.run([]*test.Test{t}, false, faultFromK, h.n)
+		rep := (h.panicked && classifyPanic(h) == findingFITPanic) || (f.panicked && classifyPanic(f) == findingFITPanic)
+		c.Probe(findingFITPanic, rep, fmt.Sprintf("Run(%q): healthy platform panicked=%v (%s); last hardware call failing panicked=%v (%s)", t.Name, h.panicked, h.pmsg, f.panicked, f.pmsg))
+	} else {
+		c.Probe(findingFITPanic, false, "test not found")
+	}
+	// (3) a failed MSR read (empty result) panics in the go-linux-lowlevel-hw helpers
+	if t := e.byName("TXT not disabled by BIOS"); t != nil {
+		f := e.run([]*test.Test{t}, false, faultFromK, 1)
+		rep := f.panicked && classifyPanic(f) == findingMSRPanic
+		c.Probe(findingMSRPanic, rep, fmt.Sprintf("Run(%q) with ReadMSR returning no values: panicked=%v (%s)", t.Name, f.panicked, f.pmsg))
+	} else {
+		c.Probe(findingMSRPanic, false, "test not found")
+	}
+}
